@@ -2951,6 +2951,8 @@ def tracked_elem(ty):
 def cseq_elem(ty):
     """Element types whose vectors are kept as concrete lists when built on the path: packet parts (subscription entries,
     topic filters ...) - not properties, whose lists stay symbolic values handed to their own parse / size functions."""
+    if ty.startswith("mqtt::connection::core::"):
+        return True          # private helper types of the connection module (a list of planned steps built, then executed)
     return ty.startswith("mqtt::packet::") and not ty.endswith("property::Property") and "GenericEvent" not in ty
 
 
